@@ -8,6 +8,6 @@ for ID in "$@"; do
     ./check $p --no-write > /tmp/rf_${ID}_$p.log 2>&1; rc=$?
     if [ $rc -ne 0 ]; then DET="$DET $p(rc=$rc)"; echo "== $ID $p rc=$rc"; grep "^  R\|ANALYSIS" /tmp/rf_${ID}_$p.log | cut -c1-330; fi
   done
-  cd /repo && git checkout -- . && cd /verif
+  cd /repo && git apply -R /verif/refactors/$ID/patch.diff; git checkout -- . ; cd /verif
   echo "checks alarming on refactor $ID:$DET"
 done
